@@ -406,3 +406,10 @@ Lemma gen_norm_ok_nz (q : Q) : gen_norm_ok q = true -> ~ (q == 0)%Q.
 Proof.
   unfold gen_norm_ok. intros H E. rewrite E in H. vm_compute in H. discriminate.
 Qed.
+
+(* the quantity each keyword smears: energy, unit (number), charge, baryon number, strangeness *)
+Lemma quantity_table_spec :
+  gen_quantity_table = [("energy_density", QAttr "E"); ("number_density", QOne); ("charge_density", QAttr "charge");
+                        ("baryon_density", QAttr "baryon_number"); ("strangeness_density", QAttr "strangeness")]%string
+  /\ gen_quantity_unknown = ValueError.
+Proof. split; reflexivity. Qed.
